@@ -74,6 +74,8 @@ pub struct ConnStateRow {
     pub watched: usize,
     pub blocked_keys: Vec<(usize, Vec<u8>)>,
     pub is_monitoring: bool,
+    /// (database, key, baseline modification counter) of every watched key, sorted
+    pub watched_detail: Vec<(usize, Vec<u8>, u64)>,
 }
 
 /// One waiter in `BlockingManager::verif_snapshot`
